@@ -3300,6 +3300,13 @@ func (h *RequestHeader) parseHeaders(buf []byte, blockEnd int) (int, error) {
 	if h.contentLength < 0 {
 		h.contentLengthBytes = h.contentLengthBytes[:0]
 	}
+	if transferEncodingSeen && (contentLengthSeen || h.contentLength != -1) {
+		// RFC 9112 section 6.1: a request carrying both Transfer-Encoding and
+		// Content-Length, or a Transfer-Encoding whose final coding is not
+		// chunked, has ambiguous framing. The connection must be closed after
+		// responding, so that nothing following it is taken for a request.
+		h.connectionClose = true
+	}
 	if h.noHTTP11 && !h.connectionClose {
 		// close connection for non-http/1.1 request unless 'Connection: keep-alive' is set.
 		v := peekArgBytes(h.h, strConnection)
